@@ -15,13 +15,12 @@ EXPLANATION = (
     "Static rules over Note/NoteContainer/Bar/Track: the container methods transpose/augment/diminish are evaluated "
     "on containers holding recording stubs (three elements, rests in every position for bars) and must call the "
     "same-named operation exactly once on every element with their own parameters forwarded unchanged, skipping "
-    "rests, touching no beat/value slot; Note.transpose is evaluated with the rename and the comparisons summarised "
-    "(octave fix-up table: up and lower -> +1, down and higher -> -1, measured against the name and octave saved "
-    "before the rename); change_octave is evaluated on symbolic octave and difference (result never negative, equal "
+    "rests, touching no beat/value slot; Note.transpose is evaluated with the rename summarised by its C03 post-condition "
+    "(P(new) = P(old) +- s - 12w, s in 0..11 symbolic, wrap w in {0,1}) and the real comparison operators on symbolic pitch "
+    "numbers 12*octave + P(name): on every path the octave must move by exactly w, i.e. the pitch number by exactly s; change_octave is evaluated on symbolic octave and difference (result never negative, equal "
     "to the sum when that is non-negative); Note.augment/diminish delegate to core.notes.")
 TRUSTED = ["CPython ast module", "mingus_static abstract evaluator", "C01/C03 summaries (notes.augment/diminish, intervals.from_shorthand)"]
-NOT_DECIDED = ("that the octave fix-up makes the pitch number move by exactly the interval size for every spelling (a numeric "
-               "fact about pitch numbers); histories of mixed operations")
+NOT_DECIDED = "histories of mixed operations; that from_shorthand keeps |P(new) - P(old) -+ s| within one wrap (C03's post-condition, trusted here)"
 
 NOTE, NC, BAR, TRACK = "mingus.containers.note", "mingus.containers.note_container", "mingus.containers.bar", "mingus.containers.track"
 
@@ -34,7 +33,7 @@ def run(ctx):
     rule_note_transpose(ctx)
     rule_octave(ctx)
     ctx.floor("R-C11-1", 9)
-    ctx.floor("R-C11-2", 4)
+    ctx.floor("R-C11-2", 6)
     ctx.floor("R-C11-3", 5)
 
 
@@ -110,88 +109,77 @@ def rule_note_transpose(ctx):
     ci = repo.mod(NOTE).cls("Note")
     fi = repo.find_method(ci, "transpose")
     ctx.touch(fi)
+    # Pitch arithmetic.  P(name) = natural + sharps - flats of a name (not reduced mod 12: B# is 12, Cb is -1), the
+    # pitch number of a note is 12*octave + P(name) (C10).  The rename (intervals.from_shorthand, C03) gives a name
+    # with P(new) = P(old) +- s - 12*w for the interval size s in 0..11 and a wrap w in {0, 1}; the octave must move
+    # by exactly w so that the pitch number moves by exactly s.  Both wraps are evaluated with s, P(old), octave symbolic.
+    from ..engine.absval import Token
     for up in (True, False):
-        old_name = Opaque("old_name")
-        o = Sym("octave", 0, INF)
-        new_name = Opaque("new_name")
-        interval = Opaque("interval")
-        holder = {}
+        for wrap in (0, 1):
+            old_name, new_name, interval = Token("old_name"), Token("new_name"), Token("interval")
+            o = Sym("octave", 0, INF)
+            size = Sym("semitones", 0, 11)
+            p_old = Sym("P(old name)", -INF, INF)
+            sign = 1 if up else -1
+            pitch = {id(old_name): Lin.of(p_old), id(new_name): Lin.of(p_old) + Lin.of(size).scale(sign) - 12 * wrap * sign}
 
-        def mk():
-            holder["n"] = AObj(ci, {"name": old_name, "octave": Lin.of(o)}, name="note")
-            return [holder["n"], interval, up]
-        made = []
+            def mk():
+                return [AObj(ci, {"name": old_name, "octave": Lin.of(o)}, name="note"), interval, up]
 
-        def note_ctor(it, args, kwargs, node):
-            ref = AObj(ci, {"name": args[0] if args else None, "octave": args[1] if len(args) > 1 else None}, name="old")
-            made.append(ref)
-            log_of(it).append(("Note()", list(args), dict(kwargs)))
-            ref.is_ref = True
-            return ref
+            def note_ctor(it, args, kwargs, node):
+                log_of(it).append(("Note()", list(args), dict(kwargs)))
+                oc = args[1] if len(args) > 1 else kwargs.get("octave", 4)
+                return AObj(ci, {"name": args[0] if args else None, "octave": oc}, name="reference")
 
-        def cmp_summary(which):
-            def f(it, args, kwargs, node):
-                a, b = args[0], args[1]
-                rel = which
-                if getattr(a, "is_ref", False) and not getattr(b, "is_ref", False):
-                    # reference on the left: old OP self  ==  self FLIP(OP) old
-                    rel = {"lt": "gt", "gt": "lt", "le": "ge", "ge": "le"}[which]
-                    a, b = b, a
-                log_of(it).append((rel, [a, b], {}))
-                return it.fork("%s(self, old)" % rel)
-            return f
-        summ = {"mingus.core.intervals.from_shorthand": recorder("from_shorthand", new_name),
-                NOTE + ".Note": note_ctor,
-                NOTE + ".Note.__lt__": cmp_summary("lt"), NOTE + ".Note.__gt__": cmp_summary("gt"),
-                NOTE + ".Note.__le__": cmp_summary("le"), NOTE + ".Note.__ge__": cmp_summary("ge")}
-        try:
-            paths = run_method(repo, fi, mk, summaries=summ)
-        except CannotDecide as e:
-            raise AnalysisError("Note.transpose(up=%s): %s" % (up, e))
-        ok, why = bool(paths), "no outcome"
-        seen_adjust = set()
-        for p in paths:
-            if p.kind != "return":
-                ok, why = False, "%s %r" % (p.kind, p.value)
-                break
-            n = p.interp.args[0]
-            log = log_of(p.interp)
-            fs = [c for c in log if c[0] == "from_shorthand"]
-            if len(fs) != 1 or fs[0][1][0] is not old_name or fs[0][1][1] is not interval or \
-                    (fs[0][1][2] if len(fs[0][1]) > 2 else fs[0][2].get("up", True)) is not up:
-                ok, why = False, "rename is not from_shorthand(old name, interval, up): %s" % (fs,)
-                break
-            if n.attrs.get("name") is not new_name:
-                ok, why = False, "the name is %r after the call, expected the renamed note" % (n.attrs.get("name"),)
-                break
-            ctor = [c for c in log if c[0] == "Note()"]
-            if any(c[1][0] is not old_name or Lin.of(c[1][1]) != Lin.of(o) for c in ctor if len(c[1]) >= 2) or not ctor:
-                ok, why = False, "the reference note is not built from the name and octave saved before the rename: %s" % (ctor,)
-                break
-            cmps = [c for c in log if c[0] in ("lt", "gt", "le", "ge")]
-            d = p.interp.resolve(Lin.of(n.attrs.get("octave")) - Lin.of(o))
-            if not d.is_const():
-                ok, why = False, "octave becomes %s" % n.attrs.get("octave")
-                break
-            outcome = dict((lab.split("(")[0], v) for lab, v in p.trace)
-            lower = outcome.get("lt", None) if "lt" in outcome else (not outcome["ge"] if "ge" in outcome else None)
-            higher = outcome.get("gt", None) if "gt" in outcome else (not outcome["le"] if "le" in outcome else None)
-            want = (1 if lower else 0) if up else (-1 if higher else 0)
-            if (up and lower is None) or (not up and higher is None):
-                ok, why = False, "direction up=%s does not compare the renamed note with the old one (%s)" % (up, p.trace)
-                break
-            # receiver of the comparison must be the note itself against the reference
-            if any(not (c[1][0] is n and getattr(c[1][1], "is_ref", False)) and not (c[1][1] is n and getattr(c[1][0], "is_ref", False)) for c in cmps):
-                ok, why = False, "comparison is not between the note and its old self"
-                break
-            if d.const != want:
-                ok, why = False, "up=%s, renamed note %s the old one: octave changes by %+d, expected %+d" % (
-                    up, ("below" if lower else "not below") if up else ("above" if higher else "not above"), d.const, want)
-                break
-            seen_adjust.add(d.const)
-        if ok and seen_adjust != ({0, 1} if up else {0, -1}):
-            ok, why = False, "octave adjustments seen %s" % sorted(seen_adjust)
-        ctx.check(ok, R, "Note.transpose[up=%s]" % up, fi.where(), "Note.transpose(interval, up=%s)" % up, why)
+            def P(it, name):
+                if id(name) not in pitch:
+                    raise CannotDecide("pitch of %r (neither the old nor the new name)" % (name,))
+                return pitch[id(name)]
+
+            def int_summary(it, args, kwargs, node):
+                n = args[0]
+                oc = Lin.of(n.attrs.get("octave"))
+                if oc is None:
+                    raise CannotDecide("int() of a note with octave %r" % (n.attrs.get("octave"),))
+                return oc.scale(12) + P(it, n.attrs.get("name"))
+
+            def pc_summary(it, args, kwargs, node):
+                return it.mod_lin(P(it, args[0]), 12)
+            summ = {"mingus.core.intervals.from_shorthand": recorder("from_shorthand", new_name),
+                    NOTE + ".Note": note_ctor, NOTE + ".Note.__int__": int_summary,
+                    "mingus.core.notes.note_to_int": pc_summary}
+            try:
+                paths = run_method(repo, fi, mk, summaries=summ)
+            except CannotDecide as e:
+                raise AnalysisError("Note.transpose(up=%s): %s" % (up, e))
+            ok, why = bool(paths), "no outcome"
+            want = wrap * sign
+            for p in paths:
+                if p.kind != "return":
+                    ok, why = False, "%s %r" % (p.kind, p.value)
+                    break
+                n = p.interp.args[0]
+                log = log_of(p.interp)
+                fs = [c for c in log if c[0] == "from_shorthand"]
+                if len(fs) != 1 or fs[0][1][0] is not old_name or fs[0][1][1] is not interval or \
+                        (fs[0][1][2] if len(fs[0][1]) > 2 else fs[0][2].get("up", True)) is not up:
+                    ok, why = False, "rename is not from_shorthand(old name, interval, up): %s" % (fs,)
+                    break
+                if n.attrs.get("name") is not new_name:
+                    ok, why = False, "the name is %r after the call, expected the renamed note" % (n.attrs.get("name"),)
+                    break
+                d = Lin.of(n.attrs.get("octave"))
+                d = p.interp.resolve(d - Lin.of(o)) if d is not None else None
+                if d is None or not d.is_const() or d.const != want:
+                    lo_, hi_ = p.interp.lin_interval(Lin.of(size))
+                    ok, why = False, ("%s by s semitones (s in %s..%s) where the new name's own pitch is %s the old one's (P(new) = P(old) %s s %s): "
+                                      "the octave changes by %s, so the pitch number moves by %s instead of %ss" % (
+                                          "up" if up else "down", lo_, hi_, ("below" if up else "above") if wrap else ("not below" if up else "not above"),
+                                          "+" if up else "-", ("%+d" % (-12 * wrap * sign)) if wrap else "", d,
+                                          "12*(%s) %s s %s" % (d, "+" if up else "-", ("%+d" % (-12 * wrap * sign)) if wrap else ""), "+" if up else "-"))
+                    break
+            ctx.check(ok, R, "Note.transpose[up=%s,wrap=%d]" % (up, wrap), fi.where(),
+                      "Note.transpose(interval, up=%s), renamed note %s the B/C boundary" % (up, "crosses" if wrap else "does not cross"), why)
     # augment / diminish delegate to core.notes on the name
     for op, want in (("augment", 1), ("diminish", -1)):
         f2 = repo.find_method(ci, op)
